@@ -333,6 +333,7 @@ def finish(ctx, level, obligations, discharged, rule, samples, distinct_nontrivi
         "correspondence_diffs": ctx.cov.get("correspondence_diffs", 0),
         "translator_symbols": ctx.cov.get("translator_symbols"),
         "axioms_used": ctx.cov.get("axioms"),
+        "leanchecker": ctx.cov.get("leanchecker"),
         "known_findings_hit": [k["id"] for k in ctx.known_hits],
         "broken": [list(b)[:2] for b in ctx.broken[:20]],
         "notes": ctx.notes,
@@ -423,4 +424,14 @@ def standard_proof_steps(ctx, modules=None, targets=None, extra_props=None):
             return len(theorems), 0      # a helper lemma (or the build itself) failed: nothing of this module is checked
         return len(theorems), len([t for t in theorems if t.split(".")[-1] not in failed])
     ok, good = audit(ctx, modules or ["GilVerif.Props.%s" % prop], theorems)
+    if ctx.thorough() and not os.environ.get("VERIF_NO_LEANCHECKER"):
+        # thorough tier: the toolchain's independent re-checker replays the compiled Props modules in a fresh kernel
+        rechecked = []
+        for mod in (modules or ["GilVerif.Props.%s" % prop]):
+            rc, out = lake(ctx, ["env", "leanchecker", mod], timeout=1800)
+            rechecked.append({"module": mod, "ok": rc == 0})
+            if rc != 0:
+                ctx.broken.append(("audit", mod, "leanchecker rejects the compiled module: %s" % out[-400:]))
+                ctx.log("leanchecker failed on %s:\n%s" % (mod, out[-600:]))
+        ctx.cov["leanchecker"] = rechecked
     return len(theorems), good
